@@ -354,7 +354,7 @@ theorem abs_getProj {t : Table} {n : Nat} (hr : t.Rect n) (ks : List String) :
 
 /-! ### renaming -/
 
-theorem abs_relabel {t : Table} {n : Nat} (hr : t.Rect n) (r : Relabel) :
+theorem abs_relabel_any {t : Table} {n : Nat} (hr : t.Rect n) (r : Relabel) :
     abs (t.relabel r) = (abs t).relabel r.key := by
   by_cases hne : t = []
   · subst hne; rfl
